@@ -87,6 +87,20 @@ def judge(case):
             for p in ai:
                 if ai[p] != bi[p]:
                     return dict(texts=texts, how=how, reason='a pickle round-trip changed inherited flags', path=[str(c) for c in p], original=repr(ai[p][1]), copy=repr(bi[p][1]))
+    # ... and is written out (dumped) exactly like the original: tags, reference points, values of every node kind
+    from awesomeyaml import yaml as ayaml
+    try:
+        ref_dump = ayaml.dump(root)
+    except Exception:
+        ref_dump = None
+    if ref_dump is not None:
+        for how, cp in made:
+            try:
+                d2 = ayaml.dump(cp)
+            except Exception as e:
+                return dict(texts=texts, how=how, reason='the original can be dumped, the copy cannot', error=type(e).__name__ + ': ' + str(e)[:200])
+            if d2 != ref_dump:
+                return dict(texts=texts, how=how, reason='the copy is dumped differently from the original', original=ref_dump[:300], copy=d2[:300])
     # the copy merges and evaluates exactly like the original
     extra = case.get('extra')
     from .C10 import canon
@@ -164,6 +178,11 @@ def run(rep, tier, rng):
         d = gen.gen_doc(rng, gen.PROFILES['all'], root_tag_ok=False)
         inputs.append(dict(texts=[gen.render(d)], merged=False, no_filename=True, ambient=True))
     inputs.append(dict(texts=["{model: !notnew {a: 1, opt: {lr: 1, momentum: 2}}, drop: !del {keep: {k: 1}}}"], merged=False, extra="{model: {opt: {zz: 5}}}"))
+    # one node object at several positions of one list (YAML anchor + aliases); !path nodes (a reference point, dynamic components)
+    for merged in (False, True):
+        inputs.append(dict(texts=["{base: 1, other: 2, vals: [&r !xref base, 1, *r, !xref other, *r], m: {a: &q !force 5, b: *q}}"], merged=merged))
+        inputs.append(dict(texts=["{name: exp, out: !path:cwd [runs, !xref name], p2: !path:file [a, !weak b], p3: !path:abs(/tmp) [x], p4: !path:parent(1) [c]}"], merged=merged, extra="{name: other}"))
+        inputs.append(dict(texts=["{l: [&c !call:vmod.u1 {x: 1}, *c, 2]}"], merged=merged))
     base.run_oracle(rep, 'C19', 'copy equals original, is distinct, merges/evaluates alike, isolation', inputs, judge)
 
 
